@@ -25,7 +25,7 @@ RULE = ("the C01 case set (complete small layer + seeded-random documents x guid
         "the complete Unicode-number key layer: 32 key texts of superscripts, subscripts, circled / parenthesised digits, fractions, Roman / "
         "CJK numerals, non-ASCII decimal digits, signs and mixes x Hashes lacking / owning the key, with integer keys, empty, an "
         "Array-of-Hashes (pass-through), a list, a set x direct / below a key / `*` / `**` / a slice, alone and followed by a key, "
-        "through required / exists / optional queries.  Correspondence: the error class equals the Lean model's.  "
+        "through required / exists / optional queries.  Optional queries that would have to CREATE nodes (the model of C09 covers what they build) are run too, on a fresh copy, and only the type of an escaping exception is judged (signatures optcreate:...).  Correspondence: the error class equals the Lean model's.  "
         "distinct_nontrivial = distinct (document, path) whose required query returns at least one node.")
 
 
@@ -172,7 +172,7 @@ def unicode_key_cases():
 
 def run(chk: core.Check):
     core.use_repo()
-    opts = {"c02": False, "slash": True}
+    opts = {"c02": False, "slash": True, "opt_create": True}
     if chk.replay_in:
         import json
         rp = json.load(open(chk.replay_in))
